@@ -439,7 +439,8 @@ def gen_decl(rng, kind=None):
         default, fixed = "dv", "fv"  # not a valid declaration; the mapper does not care
     tp = rng.choice(["string", "string", None])
     if kind == "attribute":
-        return {"kind": kind, "use": rng.choice([None, "optional", "required", "required", "prohibited"]), "default": default, "fixed": fixed, "type": tp}
+        return {"kind": kind, "use": rng.choice([None, "optional", "required", "required", "prohibited"]), "default": default, "fixed": fixed, "type": tp,
+                "group": rng.random() < 0.3}
     mn, mx = rng.choice([(1, 1), (0, 1), (0, MAXSIZE), (1, MAXSIZE), (2, 2), (0, 0), (1, 1), (0, 1)])
     return {"kind": kind, "min": mn, "max": mx, "default": default, "fixed": fixed, "type": tp}
 
@@ -459,18 +460,25 @@ def decl_valid(d):
 
 
 def decls_xsd(decls, ns="urn:t"):
-    els, ats = [], []
+    els, ats, grouped = [], [], []
     for i, d in enumerate(decls):
         extra = "".join(f' {k}="{_xml_attr(d[k])}"' for k in ("default", "fixed") if d[k] is not None)
         tp = ' type="xs:string"' if d["type"] == "string" else ""
         if d["kind"] == "attribute":
             use = f' use="{d["use"]}"' if d["use"] else ""
-            ats.append(f'   <xs:attribute name="d{i}"{tp}{use}{extra}/>\n')
+            (grouped if d.get("group") else ats).append(f'   <xs:attribute name="d{i}"{tp}{use}{extra}/>\n')
         else:
-            els.append(f'    <xs:element name="d{i}"{tp}{occ_attrs(d["min"], d["max"])}{extra}/>\n')
+            nil = ' nillable="true"' if d.get("nillable") else ""
+            els.append(f'    <xs:element name="d{i}"{tp}{occ_attrs(d["min"], d["max"])}{extra}{nil}/>\n')
     tns = f' targetNamespace="{ns}" xmlns="{ns}" elementFormDefault="qualified"' if ns else ""
+    groups = ""
+    if grouped:
+        # the declarations marked "group" sit in an attribute group (nested once) that the type refers to
+        groups = (f' <xs:attributeGroup name="ag1">\n{"".join(grouped[1:])} </xs:attributeGroup>\n'
+                  f' <xs:attributeGroup name="ag0">\n{grouped[0]}   <xs:attributeGroup ref="ag1"/>\n </xs:attributeGroup>\n')
+        ats.append('   <xs:attributeGroup ref="ag0"/>\n')
     return (
-        f'<?xml version="1.0"?>\n<xs:schema xmlns:xs="http://www.w3.org/2001/XMLSchema"{tns}>\n'
+        f'<?xml version="1.0"?>\n<xs:schema xmlns:xs="http://www.w3.org/2001/XMLSchema"{tns}>\n{groups}'
         f' <xs:element name="r">\n  <xs:complexType>\n   <xs:sequence>\n{"".join(els)}   </xs:sequence>\n{"".join(ats)}  </xs:complexType>\n </xs:element>\n</xs:schema>\n'
     )
 
@@ -492,14 +500,21 @@ def export_gattr(attr):
 
 
 def real_attr_map(decls):
-    """SchemaParser + SchemaMapper + CalculateAttributePaths: the Attr of every declaration"""
+    """SchemaParser + SchemaMapper + the UNGROUP step of the real container (attribute groups) +
+    CalculateAttributePaths: the Attr of every declaration"""
+    from xsdata.codegen.container import ClassContainer, Steps
     from xsdata.codegen.handlers.calculate_attribute_paths import CalculateAttributePaths
     from xsdata.codegen.mappers.schema import SchemaMapper
     from xsdata.codegen.parsers.schema import SchemaParser
+    from xsdata.models.config import GeneratorConfig
     from xsdata.models.xsd import Schema
 
     schema = SchemaParser(location="mem.xsd").from_bytes(decls_xsd(decls).encode(), Schema)
-    root = next(c for c in SchemaMapper.map(schema) if c.name == "r")
+    container = ClassContainer(GeneratorConfig())
+    container.extend(SchemaMapper.map(schema))
+    container.validate_classes()
+    container.process_classes(Steps.UNGROUP)
+    root = next(c for c in container if c.name == "r")
     CalculateAttributePaths().process(root)
     by_name = {a.name: a for a in root.attrs}
     return [export_gattr(by_name[f"d{i}"]) for i in range(len(decls))]
@@ -550,7 +565,10 @@ def dataclass_field_shape(f):
     elif f.default is None:
         d = "None"
     else:
-        d = [f.default if isinstance(f.default, str) else repr(f.default)]
+        import enum
+
+        v = f.default.value if isinstance(f.default, enum.Enum) else f.default
+        d = [v if isinstance(v, str) else repr(v)]
     return {"init": f.init, "default": d}
 
 
@@ -666,15 +684,343 @@ def real_subst_sites(sites, subs, refs, ns="urn:t"):
     classes = [target]
     for n in dict.fromkeys(list(refs) + list(heads) + list(heads.values())):
         classes.append(Class(qname=q(n), tag=Tag.ELEMENT, location="mem", namespace=ns, substitutions=[q(heads[n])] if n in heads else []))
+    # one handler for all the classes of a container: a class with the same attrs goes first, the result for
+    # `target` must not depend on it (the handler keeps the substitution map, the types keep a `substituted` flag)
+    decoy = build_class(sites)
+    decoy.qname = "decoy"
+    for a in decoy.attrs:
+        if a.name in refs:
+            a.types = [AttrType(qname=q(a.name))]
+    classes.append(decoy)
     container = ClassContainer(GeneratorConfig())
     container.extend(classes)
-    AddAttributeSubstitutions(container).process(target)
+    handler = AddAttributeSubstitutions(container)
+    handler.process(decoy)
+    handler.process(target)
     return [export_attr(a) for a in target.attrs]
 
 
 def by_name(sites):
     """order of insertion and `index` of the clones are not modelled"""
     return renumber(sorted(({**s, "index": 0} for s in sites), key=lambda s: s["name"]))
+
+
+# --------------------------------------------------------------------------
+# namespaces and forms  (model: lean/XsdataModel/Gen/Ns.lean)
+#   ctx  := {"tns": str|None, "default": str|None (xmlns="…"), "prefixes": {prefix: uri}, "eform": None|"qualified"|"unqualified", "aform": …}
+#   decl := {"attr": bool, "kind": "local", "name", "form": None|"qualified"|"unqualified", "tnsattr": str|None}
+#         | {"attr": bool, "kind": "ref", "prefix": str|None, "name"}      (reference to a global element / attribute)
+#   The main schema s.xsd has the context `ctx`; o.xsd (target namespace urn:o) and n.xsd (no target namespace)
+#   declare the global elements g / attributes ga that references may point to.
+# --------------------------------------------------------------------------
+NS_O = "urn:o"
+
+
+def ns_spec(ctx, d):
+    """XSD: the namespace name of the element / attribute a declaration or reference stands for ('' = none)"""
+    if d["kind"] == "ref":
+        if d["prefix"] is not None:
+            return ctx["prefixes"].get(d["prefix"]) or ""
+        if ctx["default"]:
+            return ctx["default"]
+        # chameleon include: the names without namespace move to the includer's target namespace
+        return (ctx["tns"] or "") if ctx.get("chameleon") else ""
+    if d["kind"] == "global":
+        return ctx["tns"] or ""
+    if d.get("tnsattr") is not None:
+        return d["tnsattr"]
+    form = d["form"] or (ctx["aform"] if d["attr"] else ctx["eform"]) or "unqualified"
+    return (ctx["tns"] or "") if form == "qualified" else ""
+
+
+def ns_ref_target(ctx, d):
+    """the namespace a reference points into, and whether the three fixture schemas declare it there"""
+    ns = ns_spec(ctx, d)
+    return ns
+
+
+def gen_ns_ctx(rng):
+    tns = rng.choice(["urn:t", "urn:t", "urn:t", None])
+    prefixes = {}
+    default = None
+    if tns and rng.random() < 0.75:
+        prefixes["t"] = tns
+    r = rng.random()
+    if r < 0.4:
+        default = tns
+    elif r < 0.6:
+        default = NS_O
+    if rng.random() < 0.6 or default == NS_O:
+        prefixes["o"] = NS_O
+    chameleon = bool(tns) and rng.random() < 0.25
+    if chameleon and rng.random() < 0.7:
+        prefixes.pop("t", None)
+        default = None if default == tns else default
+    return {"tns": tns, "chameleon": chameleon, "default": default, "prefixes": prefixes,
+            "eform": rng.choice([None, "qualified", "unqualified"]), "aform": rng.choice([None, None, "qualified", "unqualified"])}
+
+
+def gen_ns_decls(rng, ctx, n=None):
+    """declarations that resolve: a reference names a global element/attribute that one of the schemas declares"""
+    decls = []
+    names = iter("abcdefghij")
+    used_refs = set()
+    for _ in range(n or rng.randint(1, 6)):
+        attr = rng.random() < 0.4
+        r = rng.random()
+        if r < 0.55:
+            decls.append({"attr": attr, "kind": "local", "name": next(names), "form": rng.choice([None, None, "qualified", "unqualified"]), "tnsattr": None})
+            continue
+        # a reference: into the target namespace (global h*/ha* of s.xsd), into urn:o (g / ga), or into no namespace (n / na)
+        cands = []
+        for pfx in [None] + list(ctx["prefixes"]):
+            ns = ns_spec(ctx, {"kind": "ref", "prefix": pfx})
+            if ns == (ctx["tns"] or ""):
+                cands.append((pfx, "ha" if attr else "h"))
+            elif ns == NS_O:
+                cands.append((pfx, "ga" if attr else "g"))
+            elif ns == "" and ctx["tns"] and not ctx.get("chameleon"):
+                cands.append((pfx, "na" if attr else "n"))
+        cands = [c for c in cands if (c, attr) not in used_refs and (c[1], attr) not in {(x[0][1], x[1]) for x in used_refs}]
+        if not cands:
+            continue
+        c = rng.choice(cands)
+        used_refs.add((c, attr))
+        decls.append({"attr": attr, "kind": "ref", "prefix": c[0], "name": c[1]})
+    return decls
+
+
+def ns_sources(ctx, decls):
+    """the three schema documents: s.xsd (context `ctx`, root element r with the declarations), o.xsd, n.xsd"""
+    xmlns = "".join(f' xmlns:{p}="{u}"' for p, u in ctx["prefixes"].items())
+    if ctx["default"]:
+        xmlns += f' xmlns="{ctx["default"]}"'
+    tns = f' targetNamespace="{ctx["tns"]}"' if ctx["tns"] and not ctx.get("chameleon") else ""
+    forms = (f' elementFormDefault="{ctx["eform"]}"' if ctx["eform"] else "") + (f' attributeFormDefault="{ctx["aform"]}"' if ctx["aform"] else "")
+    els, ats = [], []
+    for d in decls:
+        if d["kind"] == "ref":
+            q = (d["prefix"] + ":" if d["prefix"] is not None else "") + d["name"]
+            (ats if d["attr"] else els).append(f'<xs:attribute ref="{q}"/>' if d["attr"] else f'<xs:element ref="{q}" minOccurs="0"/>')
+        else:
+            form = f' form="{d["form"]}"' if d["form"] else ""
+            ta = f' targetNamespace="{d["tnsattr"]}"' if d.get("tnsattr") is not None else ""
+            (ats if d["attr"] else els).append(f'<xs:attribute name="{d["name"]}" type="xs:string"{form}{ta}/>' if d["attr"] else f'<xs:element name="{d["name"]}" type="xs:string" minOccurs="0"{form}{ta}/>')
+    imports = '<xs:import namespace="urn:o" schemaLocation="o.xsd"/>'
+    if ctx["tns"] and not ctx.get("chameleon"):
+        imports += '<xs:import schemaLocation="n.xsd"/>'
+    s = (f'<?xml version="1.0"?>\n<xs:schema xmlns:xs="http://www.w3.org/2001/XMLSchema"{xmlns}{tns}{forms}>\n {imports}\n'
+         f' <xs:element name="h" type="xs:string"/>\n <xs:attribute name="ha" type="xs:string"/>\n'
+         f' <xs:element name="r"><xs:complexType><xs:sequence>{"".join(els)}</xs:sequence>{"".join(ats)}</xs:complexType></xs:element>\n</xs:schema>\n')
+    o = ('<?xml version="1.0"?>\n<xs:schema xmlns:xs="http://www.w3.org/2001/XMLSchema" targetNamespace="urn:o">\n'
+         ' <xs:element name="g" type="xs:string"/>\n <xs:attribute name="ga" type="xs:string"/>\n</xs:schema>\n')
+    n = ('<?xml version="1.0"?>\n<xs:schema xmlns:xs="http://www.w3.org/2001/XMLSchema">\n'
+         ' <xs:element name="n" type="xs:string"/>\n <xs:attribute name="na" type="xs:string"/>\n</xs:schema>\n')
+    out = {"s.xsd": s, "o.xsd": o, "n.xsd": n}
+    if ctx.get("chameleon"):
+        # the document without target namespace is included by one that has it
+        out["m.xsd"] = (f'<?xml version="1.0"?>\n<xs:schema xmlns:xs="http://www.w3.org/2001/XMLSchema" targetNamespace="{ctx["tns"]}">\n'
+                        ' <xs:include schemaLocation="s.xsd"/>\n</xs:schema>\n')
+    return out
+
+
+def ns_entry(ctx):
+    return ["m.xsd"] if ctx.get("chameleon") else ["s.xsd"]
+
+
+def real_ns_attrs(ctx, decls):
+    """SchemaParser (with the includer's target namespace for a chameleon include) + SchemaMapper: the
+    namespace of the class of r and of the attr of every declaration"""
+    from xsdata.codegen.mappers.schema import SchemaMapper
+    from xsdata.codegen.parsers.schema import SchemaParser
+    from xsdata.models.xsd import Schema
+
+    text = ns_sources(ctx, decls)["s.xsd"]
+    parser = SchemaParser(location="mem.xsd", target_namespace=ctx["tns"] if ctx.get("chameleon") else None)
+    schema = parser.from_bytes(text.encode(), Schema)
+    root = next(c for c in SchemaMapper.map(schema) if c.name == "r")
+    els = [a for a in root.attrs if a.is_element]
+    ats = [a for a in root.attrs if a.is_attribute]
+    out = []
+    for d in decls:
+        pool = ats if d["attr"] else els
+        out.append(next(a for a in pool if a.name == d["name"]).namespace)
+    return {"class": root.namespace, "attrs": out}
+
+
+def real_ns_meta(cases):
+    """Filters.field_metadata (the namespace entry) and XmlMetaBuilder.resolve_namespaces on constructed attrs"""
+    from xsdata.codegen.models import Attr, AttrType, Class
+    from xsdata.formats.dataclass.filters import Filters
+    from xsdata.formats.dataclass.models.builders import XmlVarBuilder
+    from xsdata.formats.dataclass.models.elements import XmlType
+    from xsdata.models.config import GeneratorConfig
+    from xsdata.models.enums import DataType, Tag
+
+    filters = Filters(GeneratorConfig())
+    out = []
+    for c in cases:
+        tag = Tag.ATTRIBUTE if c["is_attr"] else Tag.ELEMENT
+        attr = Attr(name="x", tag=tag, namespace=c["attr"], types=[AttrType(qname=str(DataType.STRING), native=True)])
+        obj = Class(qname="r", tag=Tag.ELEMENT, location="mem", attrs=[attr])
+        meta = filters.field_metadata(obj, attr, c["parent"]).get("namespace")
+        nss = XmlVarBuilder.resolve_namespaces(XmlType.ATTRIBUTE if c["is_attr"] else XmlType.ELEMENT, meta, c["parent"])
+        out.append({"meta": meta, "bound": (nss[0] if nss else None)})
+    return out
+
+
+def real_ns_fields(ctx, decls):
+    """whole pipeline + XmlContext: the namespace of the qualified name the class of r and every field is bound to"""
+    import codegen_run as CG
+    from xsdata.formats.dataclass.context import XmlContext
+    from xsdata.utils.namespaces import split_qname
+
+    g = CG.run_pipeline(ns_sources(ctx, decls), entry=ns_entry(ctx))
+    try:
+        if g.error is not None:
+            raise g.error
+        meta = XmlContext().build(g.classes()["R"])
+        els = {}
+        for v in meta.get_element_vars():
+            els[split_qname(v.qname)[1]] = split_qname(v.qname)[0]
+        ats = {split_qname(v.qname)[1]: split_qname(v.qname)[0] for v in meta.get_attribute_vars()}
+        fields = [(ats if d["attr"] else els).get(d["name"], "MISSING") or None for d in decls]
+        return {"class": split_qname(meta.qname)[0] or None, "fields": fields}
+    finally:
+        g.close()
+
+
+def ns_doc(ctx, decls, present):
+    """an instance of r carrying the declared children / attributes `present` (indexes) under their spec names"""
+    tns = ctx["tns"] or ""
+    nsmap = {}
+
+    def q(ns, name):
+        if not ns:
+            return name
+        pfx = nsmap.setdefault(ns, f"p{len(nsmap)}")
+        return f"{pfx}:{name}"
+
+    root = q(tns, "r")
+    kids = "".join(f"<{q(ns_spec(ctx, d), d['name'])}>v{i}</{q(ns_spec(ctx, d), d['name'])}>" for i, d in enumerate(decls) if not d["attr"] and i in present)
+    ats = "".join(f' {q(ns_spec(ctx, d), d["name"])}="w{i}"' for i, d in enumerate(decls) if d["attr"] and i in present)
+    decl = "".join(f' xmlns:{p}="{u}"' for u, p in nsmap.items())
+    return f"<{root}{decl}{ats}>{kids}</{root}>"
+
+
+# --------------------------------------------------------------------------
+# DTD attribute declarations  (model: lean/XsdataModel/Gen/DtdAttrs.lean)
+#   decl := {"default": "required"|"implied"|"fixed"|"none", "value": str|None, "type": "CDATA"|"NMTOKEN"|"ID"|"enum"}
+# --------------------------------------------------------------------------
+def real_dtd_attr(decls):
+    from xsdata.codegen.mappers.dtd import DtdMapper
+    from xsdata.codegen.models import Class
+    from xsdata.models.dtd import DtdAttribute, DtdAttributeDefault, DtdAttributeType
+    from xsdata.models.enums import Tag
+
+    out = []
+    for d in decls:
+        target = Class(qname="r", tag=Tag.ELEMENT, location="mem")
+        a = DtdAttribute(name="x", prefix=None, type=DtdAttributeType.CDATA, default=DtdAttributeDefault(d["default"]),
+                         default_value=d["value"], values=[])
+        DtdMapper.build_attribute(target, a)
+        out.append(export_gattr(target.attrs[0]))
+    return out
+
+
+def dtd_attlist(decls):
+    parts = []
+    for i, d in enumerate(decls):
+        tp = {"enum": "(x|y|z)"}.get(d.get("type", "CDATA"), d.get("type", "CDATA"))
+        kw = {"required": "#REQUIRED", "implied": "#IMPLIED", "fixed": "#FIXED ", "none": ""}[d["default"]]
+        val = f'"{d["value"]}"' if d["value"] is not None else ""
+        parts.append(f"d{i} {tp} {kw}{val}")
+    return "<!ATTLIST r " + "  ".join(parts) + ">\n" if parts else ""
+
+
+def gen_dtd_attr_decl(rng, grammatical=True):
+    k = rng.choice(["required", "implied", "fixed", "none"])
+    tp = rng.choice(["CDATA", "CDATA", "NMTOKEN", "enum"])
+    v = None
+    if k in ("fixed", "none") or (not grammatical and rng.random() < 0.3):
+        v = rng.choice(["x", "y"]) if tp == "enum" else rng.choice(["D", "x", "v1"])
+    if not grammatical and rng.random() < 0.2:
+        v = None
+    return {"default": k, "value": v, "type": tp}
+
+
+# --------------------------------------------------------------------------
+# DTD element declarations  (model: lean/XsdataModel/Gen/DtdElem.lean)
+# --------------------------------------------------------------------------
+def real_dtd_elem(dtd_text: str):
+    """DtdParser + DtdMapper.build_class + the FLATTEN handlers that touch the attrs of a DTD class:
+    the element type and content tree lxml reports, and the element fields of the class"""
+    from xsdata.codegen.handlers import ProcessMixedContentClass
+    from xsdata.codegen.handlers.calculate_attribute_paths import CalculateAttributePaths
+    from xsdata.codegen.handlers.merge_attributes import MergeAttributes
+    from xsdata.codegen.handlers.update_attributes_effective_choice import UpdateAttributesEffectiveChoice
+    from xsdata.codegen.mappers.dtd import DtdMapper
+    from xsdata.codegen.parsers.dtd import DtdParser
+    from xsdata.models.dtd import DtdContentType
+
+    dtd = DtdParser.parse(dtd_text.encode(), location="mem.dtd")
+    el = next(e for e in dtd.elements if e.name == "r")
+
+    def conv(c):
+        if c is None:
+            return None
+        o = c.occur.value
+        if c.type == DtdContentType.PCDATA:
+            return {"pcdata": o}
+        if c.type == DtdContentType.ELEMENT:
+            return {"element": [c.name, o]}
+        return {("seq" if c.type == DtdContentType.SEQ else "or"): [o, conv(c.left), conv(c.right)]}
+
+    args = {"type": el.type.name.lower(), "content": conv(el.content)}
+    cls = DtdMapper.build_class(el, "mem.dtd")
+    CalculateAttributePaths().process(cls)
+    UpdateAttributesEffectiveChoice().process(cls)
+    MergeAttributes().process(cls)
+    ProcessMixedContentClass().process(cls)
+    wild = [a for a in cls.attrs if a.is_wildcard]
+    if wild:
+        w = wild[0]
+        assert cls.mixed and w.mixed and w.restrictions.min_occurs == 0 and w.restrictions.max_occurs == MAXSIZE and len(cls.attrs) == 1
+        out = {"mixed": [c.name for c in w.choices]}
+    elif cls.extensions:
+        # <!ELEMENT e ANY>: an extension of xs:anyType (FlattenClassExtensions turns it into one optional wildcard)
+        e = cls.extensions[0]
+        assert len(cls.extensions) == 1 and e.type.native and e.type.qname.endswith("}anyType") and not cls.mixed and not [a for a in cls.attrs if not a.is_attribute]
+        out = {"any_extension": True}
+    else:
+        out = {"plain": [[a.name, a.restrictions.min_occurs, a.restrictions.max_occurs] for a in cls.attrs if not a.is_attribute]}
+    return args, out
+
+
+# --------------------------------------------------------------------------
+# compound fields  (model: lean/XsdataModel/Gen/Compound.lean)
+# --------------------------------------------------------------------------
+def real_compound(sites):
+    """the real CreateCompoundFields (compound fields enabled) on a constructed class"""
+    from xsdata.codegen.container import ClassContainer
+    from xsdata.codegen.handlers import CreateCompoundFields
+    from xsdata.models.config import GeneratorConfig
+    from xsdata.models.enums import Tag
+
+    cfg = GeneratorConfig()
+    cfg.output.compound_fields.enabled = True
+    container = ClassContainer(cfg)
+    target = build_class(sites)
+    container.extend([target])
+    CreateCompoundFields(container).process(target)
+    out = []
+    for a in target.attrs:
+        if a.tag == Tag.CHOICE:
+            r = a.restrictions
+            out.append({"compound": {"names": [c.name for c in a.choices], "min": r.min_occurs, "max": r.max_occurs, "sequence": r.sequence}})
+        else:
+            out.append({"plain": a.name})
+    return out
 
 
 # --------------------------------------------------------------------------
@@ -791,14 +1137,36 @@ def dtd_text_of(c):
     return "(" + sep.join(dtd_text_of(k) for k in c["c"]) + ")" + OCC[c["o"]]
 
 
-def dtd_doc(c, names=None):
+CHILD_DECL = {"pcdata": "(#PCDATA)", "empty": "EMPTY", "any": "ANY", "mixed": "(#PCDATA|zz)*", "elems": "(zz,zz?)"}
+
+
+def dtd_doc(c, names=None, kinds=None):
+    """`kinds`: name -> declaration of that child element (default `(#PCDATA)`): EMPTY, ANY, mixed content
+    `(#PCDATA|zz)*`, element content `(zz,zz?)`; `zz` is declared `(#PCDATA)`"""
     body = dtd_text_of(c)
     if "n" in c:
         body = "(" + body + ")"
     out = f"<!ELEMENT r {body}>\n"
+    kinds = kinds or {}
     for n in sorted(set(names or dtd_names(c))):
-        out += f"<!ELEMENT {n} (#PCDATA)>\n"
+        out += f"<!ELEMENT {n} {CHILD_DECL[kinds.get(n, 'pcdata')]}>\n"
+    if any(k in ("any", "mixed", "elems") for k in kinds.values()):
+        out += "<!ELEMENT zz (#PCDATA)>\n"
     return out
+
+
+def dtd_child_xml(n, i, kinds=None):
+    """the i-th child of a document: content by the kind of its declaration"""
+    k = (kinds or {}).get(n, "pcdata")
+    if k == "pcdata":
+        return f"<{n}>v{i}</{n}>"
+    if k == "empty":
+        return f"<{n}/>"
+    if k == "elems":
+        return f"<{n}><zz>e{i}</zz></{n}>" if i % 2 else f"<{n}><zz>e{i}</zz><zz>f{i}</zz></{n}>"
+    # any / mixed: text and declared elements interleaved
+    variants = [f"<{n}/>", f"<{n}>t{i}</{n}>", f"<{n}>t{i}<zz>q{i}</zz>u{i}</{n}>", f"<{n}><zz>q{i}</zz><zz>r{i}</zz>u{i}</{n}>"]
+    return variants[i % len(variants)]
 
 
 def dtd_names(c):
